@@ -91,8 +91,12 @@ impl<F: PrimeField, CS: PolynomialCommitmentScheme<F>> PartiallyEvaluated<F, CS>
         y: F,
         xn: F,
     ) -> Evaluated<F, CS> {
+        #[cfg(feature = "verif-hooks")]
+        let expressions = expressions.inspect(crate::plonk::verif_hooks::on_identity_value);
         let expected_h_eval = expressions.fold(F::ZERO, |h_eval, v| h_eval * &y + &v);
         let expected_h_eval = expected_h_eval * ((xn - F::ONE).invert().unwrap());
+        #[cfg(feature = "verif-hooks")]
+        crate::plonk::verif_hooks::on_fold_done(&y, &xn, &expected_h_eval);
 
         Evaluated {
             h_commitments: self.h_commitments,
